@@ -16,6 +16,7 @@ LEVEL_TEXT["C14"] = (
     "HilbertFilter::process; hilbert to 1e-10 of the line scale (Bluestein lengths differ by 6e-13). "
     "Measured only: the 1e-3 quadrature accuracy of the designed filter over max(2 tw, 6/M) <= f <= 0.5 - max(2 tw, 6/M) (worst observed 7.1e-5, "
     "time domain on process() outputs and long-double frequency response of impz()), and all rounding (hilbert: 64 n eps normwise; Tuner: 1e-9 + 4 eps phase)."
+    " REGENERATED TIE (Props/C14Gen): the Tuner constructor (guard, exact integer test) and process loop body, the Delay and HilbertFilter constructors and process are translated from the C++ on every run and proved equal to the models (tunerCtor_eq, tunerStep_eq, hilbertCtorTaps_eq, gen_hfProcess_eq); the Tuner and HilbertFilter theorems are restated from the generated constructor through the generated process (tuner_gen_from_ctor, hilbert_gen_from_ctor). "
 )
 
 PROPS["C14"] = {
@@ -74,7 +75,7 @@ PROPS["C14"] = {
                  "property's own definitions and tolerances",
     "level_note": "rounding and the 1e-3 design accuracy of HilbertFilter are measured, not proved; the hilbert theorems are relative to fft = DFT / ifft = inverse DFT "
                   "at the length used (C01/C02; shown satisfiable and discharged for the exact pair); models are hand-written (sample loop -> Array.foldl, "
-                  "slices -> Array.extract, in-place spectrum edit -> index map) and tied to the code only by the correspondence run; design_fir's numeric "
+                  "slices -> Array.extract, in-place spectrum edit -> index map); Tuner, Delay and HilbertFilter (constructors and process) are proved equal to the REGENERATED code (Props/C14Gen), hilbert() is tied to the code only by the correspondence run; design_fir's numeric "
                   "content (Kaiser window, ifft of the x^8 taper) is tied by correspondence only, its structure (M taps, odd) is proved",
     "trusted_base": TB_COMMON + [
         "the library's fft(arr_real) / ifft(arr_cmplx) are the DFT and its inverse at the lengths used (properties C01/C02): hypotheses IsRealDft / IsIdft of T14.1/T14.2, discharged for the exact pair",
